@@ -144,9 +144,11 @@ class _StatePointDict(JSONAttrDict):
                 raise
 
         # Update each job instance.
+        new_statepoint = self._to_base()
         for job in self._jobs:
             job._id = new_id
             job._initialize_lazy_properties()
+            job._cached_statepoint = new_statepoint
 
         # Remove the temporary state point file if it was created. Have to do it
         # here so that we can get the updated job state point filename and set
